@@ -104,7 +104,7 @@ func cmdRun(args []string) int {
 	}
 	thorough := *tier == "thorough"
 	if *timeout == 0 {
-		*timeout = 10000
+		*timeout = 30000
 		if thorough {
 			*timeout = 120000
 		}
